@@ -138,9 +138,8 @@ Definition need_blocks (c : call) : N :=
 Definition needs_inode (c : call) : bool :=
   match c with CCreate _ _ _ | CMkdir _ _ | CSymlink _ _ _ => true | _ => false end.
 Definition nospace_plausible (wtmax : N) (c : call) (free_blocks free_inodes : N) : bool :=
-  (free_blocks <? need_blocks c) || (needs_inode c && (free_inodes =? 0)) ||
-  (* a link target beyond the largest WRITE need not fit one journal transaction *)
-  (match c with CSymlink _ _ t => wtmax <? lenN t | _ => false end).
+  (* ([wtmax] is unused since SYMLINK refuses oversize targets before allocating; kept for the driver's interface) *)
+  (free_blocks <? need_blocks c) || (needs_inode c && (free_inodes =? 0)).
 
 (* ---------- R-cache: what the server holds in memory agrees with its logical disk ---------- *)
 (* a cached inode = the 128 bytes of its disk inode *)
